@@ -71,6 +71,28 @@
 #include "nmtools/array/array/ufuncs/subtract.hpp"
 #include "nmtools/array/array/ufuncs/multiply.hpp"
 #include "nmtools/array/array/ufuncs/divide.hpp"
+#include "nmtools/array/array/ufuncs/mod.hpp"
+#include "nmtools/array/array/ufuncs/bitwise_and.hpp"
+#include "nmtools/array/array/ufuncs/bitwise_or.hpp"
+#include "nmtools/array/array/ufuncs/bitwise_xor.hpp"
+#include "nmtools/array/array/ufuncs/left_shift.hpp"
+#include "nmtools/array/array/ufuncs/right_shift.hpp"
+#include "nmtools/array/array/ufuncs/invert.hpp"
+#include "nmtools/array/array/ufuncs/equal.hpp"
+#include "nmtools/array/array/ufuncs/not_equal.hpp"
+#include "nmtools/array/array/ufuncs/less.hpp"
+#include "nmtools/array/array/ufuncs/less_equal.hpp"
+#include "nmtools/array/array/ufuncs/greater.hpp"
+#include "nmtools/array/array/ufuncs/greater_equal.hpp"
+#include "nmtools/array/array/ufuncs/logical_and.hpp"
+#include "nmtools/array/array/ufuncs/logical_or.hpp"
+#include "nmtools/array/array/ufuncs/logical_xor.hpp"
+#include "nmtools/array/array/ufuncs/logical_not.hpp"
+#include "nmtools/array/array/ufuncs/positive.hpp"
+#include "nmtools/array/array/ufuncs/signbit.hpp"
+#include "nmtools/array/array/ufuncs/isnan.hpp"
+#include "nmtools/array/array/ufuncs/isinf.hpp"
+#include "nmtools/array/array/ufuncs/isfinite.hpp"
 #define NMC_MAIN
 #include "common.hpp"
 #include <cmath>
@@ -161,12 +183,72 @@ template <typename T> static const std::vector<Binary<T>>& binaries() {
     return v;
 }
 
+// ---- integer / comparison / logical functions: the C++ operator on the promoted operands (what the property calls "the scalar
+// operation ... in the element type it yields"), exact.  Types: 0 = int32, 1 = uint8 (promotes to int), 2 = int64.
+static const std::vector<long>& igrid(long ty) {
+    static const std::vector<long> s = {-9, -7, -3, -2, -1, 0, 1, 2, 3, 5, 8, 100}, u = {0, 1, 2, 3, 5, 8, 100, 200, 255}, l = {-5000000000L, -7, -1, 0, 1, 3, 8, 5000000000L};
+    return ty == 0 ? s : ty == 1 ? u : l;
+}
+enum IDom { I_ANY, I_NZ, I_SHIFT };
+static bool in_idom(IDom d, long v) { return d == I_ANY || (d == I_NZ && v != 0) || (d == I_SHIFT && v >= 0 && v <= 8); }
+template <typename T> struct IBinary { const char* name; IDom da, db; long (*ref)(long, long); nmc::Obs (*eager)(const dyn_t<T>&, const dyn_t<T>&); nmc::Obs (*lazy)(const dyn_t<T>&, const dyn_t<T>&); };
+#define IBINARY_LIST \
+    I_(add, I_ANY, I_ANY, (x + y)) I_(subtract, I_ANY, I_ANY, (x - y)) I_(multiply, I_ANY, I_ANY, (x * y)) I_(divide, I_ANY, I_NZ, (x / y)) I_(mod, I_ANY, I_NZ, (x % y)) \
+    I_(bitwise_and, I_ANY, I_ANY, (x & y)) I_(bitwise_or, I_ANY, I_ANY, (x | y)) I_(bitwise_xor, I_ANY, I_ANY, (x ^ y)) \
+    I_(left_shift, I_SHIFT, I_SHIFT, (x << y)) I_(right_shift, I_ANY, I_SHIFT, (x >> y)) \
+    I_(equal, I_ANY, I_ANY, (x == y)) I_(not_equal, I_ANY, I_ANY, (x != y)) I_(less, I_ANY, I_ANY, (x < y)) I_(less_equal, I_ANY, I_ANY, (x <= y)) \
+    I_(greater, I_ANY, I_ANY, (x > y)) I_(greater_equal, I_ANY, I_ANY, (x >= y)) \
+    I_(logical_and, I_ANY, I_ANY, ((x != 0) && (y != 0))) I_(logical_or, I_ANY, I_ANY, ((x != 0) || (y != 0))) I_(logical_xor, I_ANY, I_ANY, ((x != 0) != (y != 0))) \
+    I_(maximum, I_ANY, I_ANY, (x > y ? x : y)) I_(minimum, I_ANY, I_ANY, (x < y ? x : y))
+template <typename T> static const std::vector<IBinary<T>>& ibinaries() {
+    static const std::vector<IBinary<T>> v = {
+#define I_(NAME, DA, DB, REF) {#NAME, DA, DB, [](long x, long y) -> long { return REF; }, [](const dyn_t<T>& a, const dyn_t<T>& b) { return nmc::observe(na::NAME(a, b)); }, [](const dyn_t<T>& a, const dyn_t<T>& b) { const auto v = view::NAME(a, b); return nmc::observe(v); }},
+        IBINARY_LIST
+#undef I_
+    };
+    return v;
+}
+template <typename T> struct IUnary { const char* name; long (*ref)(long); nmc::Obs (*eager)(const dyn_t<T>&); nmc::Obs (*lazy)(const dyn_t<T>&); };
+#define IUNARY_LIST J_(negative, (-x)) J_(positive, (+x)) J_(square, (x * x)) J_(invert, (~x)) J_(logical_not, (!x)) J_(signbit, (x < 0)) J_(isnan, 0) J_(isinf, 0) J_(isfinite, 1)
+template <typename T> static const std::vector<IUnary<T>>& iunaries() {
+    static const std::vector<IUnary<T>> v = {
+#define J_(NAME, REF) {#NAME, [](long x) -> long { (void)x; return REF; }, [](const dyn_t<T>& a) { return nmc::observe(na::NAME(a)); }, [](const dyn_t<T>& a) { const auto v = view::NAME(a); return nmc::observe(v); }},
+        IUNARY_LIST
+#undef J_
+    };
+    return v;
+}
+// float predicates on special values: 0 nan, 1 +inf, 2 -inf, 3 -0.0, 4 1.5, 5 -1.5, 6 the largest finite value
+static double special(long i, bool is_float) { switch (i) { case 0: return std::nan(""); case 1: return INFINITY; case 2: return -INFINITY; case 3: return -0.0; case 4: return 1.5; case 5: return -1.5; default: return is_float ? (double)std::numeric_limits<float>::max() : std::numeric_limits<double>::max(); } }
+template <typename T> struct FPred { const char* name; bool (*ref)(double); nmc::Obs (*eager)(const dyn_t<T>&); nmc::Obs (*lazy)(const dyn_t<T>&); };
+template <typename T> static const std::vector<FPred<T>>& fpreds() {
+    static const std::vector<FPred<T>> v = {
+#define P_(NAME, REF) {#NAME, [](double x) -> bool { return REF; }, [](const dyn_t<T>& a) { return nmc::observe(na::NAME(a)); }, [](const dyn_t<T>& a) { const auto v = view::NAME(a); return nmc::observe(v); }},
+        P_(isnan, std::isnan(x)) P_(isinf, std::isinf(x)) P_(isfinite, std::isfinite(x)) P_(signbit, std::signbit(x))
+#undef P_
+    };
+    return v;
+}
+
 void nmc_enumerate(const nmc::Tier&, const nmc::Sink& emit) {
     const auto& U = unaries<float>(); const auto& B = binaries<float>();
     for (long f = 0; f < (long)U.size(); f++) for (long ty = 0; ty < 2; ty++) for (long i = 0; i < (long)grid().size(); i++)
         if (in_dom(U[(size_t)f].dom, grid()[(size_t)i])) emit(Case("sc", {{f}, {ty}, {i}}));
     for (long f = 0; f < (long)B.size(); f++) for (long ty = 0; ty < 2; ty++) for (long i = 0; i < (long)grid2().size(); i++) for (long j = 0; j < (long)grid2().size(); j++)
         if (in_dom(B[(size_t)f].da, grid2()[(size_t)i]) && in_dom(B[(size_t)f].db, grid2()[(size_t)j])) emit(Case("sc2", {{f}, {ty}, {i, j}}));
+    const auto& IB = ibinaries<int>(); const auto& IU = iunaries<int>();
+    for (long f = 0; f < (long)IU.size(); f++) for (long ty = 0; ty < 3; ty++) for (long i = 0; i < (long)igrid(ty).size(); i++) {
+        if (ty == 2 && std::string(IU[(size_t)f].name) == "square" && std::labs(igrid(ty)[(size_t)i]) > 3000000000L) continue;   // would overflow int64
+        if (ty == 1 && std::string(IU[(size_t)f].name) == "signbit") continue;                                                   // not defined for unsigned operands
+        emit(Case("si", {{f}, {ty}, {i}}));
+    }
+    for (long f = 0; f < (long)IB.size(); f++) for (long ty = 0; ty < 3; ty++) for (long i = 0; i < (long)igrid(ty).size(); i++) for (long j = 0; j < (long)igrid(ty).size(); j++) {
+        long x = igrid(ty)[(size_t)i], y = igrid(ty)[(size_t)j];
+        if (!in_idom(IB[(size_t)f].da, x) || !in_idom(IB[(size_t)f].db, y)) continue;
+        if (ty == 2 && std::string(IB[(size_t)f].name) == "multiply" && std::labs(x) > 3000000000L && std::labs(y) > 3000000000L) continue;   // int64 overflow
+        emit(Case("si2", {{f}, {ty}, {i, j}}));
+    }
+    for (long f = 0; f < 4; f++) for (long ty = 0; ty < 2; ty++) for (long i = 0; i < 7; i++) emit(Case("sp", {{f}, {ty}, {i}}));
 }
 
 template <typename T> static dyn_t<T> one(double x) { auto a = make_arr<T>(L{1}); a.data_[0] = (T)x; return a; }
@@ -200,8 +282,47 @@ template <typename T> static Outcome run2(long f, long i, long j) {
     const auto a = one<T>(x), c = one<T>(y);
     return verdict(b.name, b.eager(a, c), b.lazy(a, c), b.ref(x, y), x, y, std::is_same_v<T, float>, true);
 }
+template <typename T> static dyn_t<T> ione(long x) { auto a = make_arr<T>(L{1}); a.data_[0] = (T)x; return a; }
+static Outcome iverdict(const std::string& arg, const nmc::Obs& e, const nmc::Obs& l, double ref) {
+    char buf[160];
+    if (!e.has || !l.has) return Outcome::bad("rejects-valid", arg + " returned Nothing");
+    if (e.data.size() != 1 || l.data.size() != 1 || e.shape != L{1} || l.shape != L{1}) return Outcome::bad("wrong", arg + ": result is not one element of shape (1)");
+    double ge = e.data[0], gl = l.data[0];
+    uint64_t h = nmc::fnv(&ge, sizeof ge);
+    if (ge != gl) { snprintf(buf, sizeof buf, ": eager %.17g != lazy %.17g", ge, gl); return Outcome::bad("wrong", arg + buf, true, h); }
+    if (ge != ref) { snprintf(buf, sizeof buf, " = %.17g, the C++ operator on the promoted operands gives %.17g", ge, ref); return Outcome::bad("wrong", arg + buf, true, h); }
+    return Outcome::ok(true, h);
+}
+template <typename T> static Outcome irun1(long f, long ty, long i) {
+    const auto& u = iunaries<T>()[(size_t)f];
+    const long x = igrid(ty)[(size_t)i];
+    using P = decltype(+std::declval<T>());                       // the promoted operand type
+    const long r = u.ref(x);
+    const std::string n = u.name;
+    const double ref = (n == "negative" || n == "positive" || n == "square" || n == "invert") ? (double)(P)r : (double)r;
+    const auto a = ione<T>(x);
+    return iverdict(n + "(" + std::to_string(x) + ") [" + (ty == 0 ? "int32" : ty == 1 ? "uint8" : "int64") + "]", u.eager(a), u.lazy(a), ref);
+}
+template <typename T> static Outcome irun2(long f, long ty, long i, long j) {
+    const auto& b = ibinaries<T>()[(size_t)f];
+    const long x = igrid(ty)[(size_t)i], y = igrid(ty)[(size_t)j];
+    using P = decltype(+std::declval<T>());
+    const double ref = (double)(P)b.ref(x, y);
+    const auto a = ione<T>(x), c = ione<T>(y);
+    return iverdict(std::string(b.name) + "(" + std::to_string(x) + ", " + std::to_string(y) + ") [" + (ty == 0 ? "int32" : ty == 1 ? "uint8" : "int64") + "]", b.eager(a, c), b.lazy(a, c), ref);
+}
+template <typename T> static Outcome prun(long f, long i) {
+    const auto& p = fpreds<T>()[(size_t)f];
+    const double x = special(i, std::is_same_v<T, float>);
+    auto a = make_arr<T>(L{1}); a.data_[0] = (T)x;
+    char b0[64]; snprintf(b0, sizeof b0, "%s(%g) [%s]", p.name, x, std::is_same_v<T, float> ? "float" : "double");
+    return iverdict(b0, p.eager(a), p.lazy(a), p.ref(x) ? 1.0 : 0.0);
+}
 Outcome nmc_execute(const Case& c) {
     long f = c.a[0][0], ty = c.a[1][0];
+    if (c.op == "si") return ty == 0 ? irun1<int>(f, ty, c.a[2][0]) : ty == 1 ? irun1<uint8_t>(f, ty, c.a[2][0]) : irun1<long>(f, ty, c.a[2][0]);
+    if (c.op == "si2") return ty == 0 ? irun2<int>(f, ty, c.a[2][0], c.a[2][1]) : ty == 1 ? irun2<uint8_t>(f, ty, c.a[2][0], c.a[2][1]) : irun2<long>(f, ty, c.a[2][0], c.a[2][1]);
+    if (c.op == "sp") return ty == 0 ? prun<float>(f, c.a[2][0]) : prun<double>(f, c.a[2][0]);
     if (c.op == "sc") return ty == 0 ? run1<float>(f, c.a[2][0]) : run1<double>(f, c.a[2][0]);
     return ty == 0 ? run2<float>(f, c.a[2][0], c.a[2][1]) : run2<double>(f, c.a[2][0], c.a[2][1]);
 }
